@@ -373,3 +373,42 @@ class NotFn(OpSemMixin, LibModel):
 
 
 CONTRACTS = [InvertSetter, NotFn]
+
+
+class NotContainsFn(LibModel):
+    """symbolic.not_contains(a, b) is the complement of operator.contains(a, b) for every a, b (the arm of the inverse
+    table a negated membership test switches to: C03, C17) - whatever the truthiness of the container"""
+    qual = 'symbolic:not_contains'
+    cls = None
+    props = ('C03', 'C17')
+    modes = ('sound',)
+    trusted = ("operator.contains(a, b) is `b in a`: an uninterpreted relation of its two arguments (A6)",)
+
+    def modenv(self):
+        env = base_modenv()
+        env['operator'] = C(Ref('module', 'operator'))
+        return env
+
+    def setup(self, eng):
+        st = State()
+        st.locals['a'] = ZV(z3.Const('container', Z.Val), 'val')
+        st.locals['b'] = ZV(z3.Const('item', Z.Val), 'val')
+        return [st]
+
+    def call(self, eng, st, f, args, kwargs, node):
+        if isinstance(f, C) and f.v == Ref('op', 'contains') and len(args) == 2 and all(isinstance(x, ZV) and x.ty == 'val' for x in args):
+            return [(st, ZV(Z.contains_f(args[0].t, args[1].t), 'bool'))]
+        return super().call(eng, st, f, args, kwargs, node)
+
+    def on_exit(self, eng, o):
+        a, b = z3.Const('container', Z.Val), z3.Const('item', Z.Val)
+        if o.sig != RETURN:
+            eng.oblige(o.st, "C03/not_contains/returns", z3.BoolVal(False))
+            return
+        eng.oblige(o.st, "C03/not_contains/is-the-complement-of-contains", eng.to_z3_bool(eng.truth(o.st, o.val)) == z3.Not(Z.contains_f(a, b)))
+
+    def signature(self, ob, model):
+        return {'truthy(container)': str(model.eval(Z.truthy(z3.Const('container', Z.Val)), model_completion=True))}
+
+
+CONTRACTS = CONTRACTS + [NotContainsFn]
